@@ -2,9 +2,7 @@
 SPECIFICATION Spec
 CONSTANTS
   Worlds <- WQuick
-  MaxArgs = 2
   MaxTx = 1
-  Families <- FamAll
 VIEW view
 ACTION_CONSTRAINT GenLog
 CHECK_DEADLOCK FALSE
